@@ -15,8 +15,9 @@ CONSTANTS MaxLen,     \* exact program length emitted
           ConstVals,  \* constant operand values
           ProbeSeq,   \* sequence of the values each input takes in the probe assignments
           OpSet,      \* operations explored
-          Derived,    \* TRUE: programs start with DerivedPrefix and the appended call takes its operands among the
-                      \*       derived values (operand kind "derived": -p0, 2*p1, s0+1), p0 and the constant 1
+          Derived,    \* 0: free programs; 1: programs start with DerivedPrefix and the appended call takes its operands among
+                      \*    the derived values (operand kind "derived": -p0, 2*p1, s0+1), p0 and the constant 1;
+                      \* 2: programs start with BoolPrefix (p0 asserted boolean, then -p0, 2*p0, p0+p0 derived from it)
           Emit
 
 VARIABLES prog, nt, done, cur
@@ -28,7 +29,11 @@ TempRefs(n) == {[k |-> "t", i |-> j] : j \in 0..(n - 1)}
 DerivedPrefix == << [op |-> "Neg", a |-> <<[k |-> "p", i |-> 0]>>, n |-> 0],
                    [op |-> "Mul", a |-> <<[k |-> "p", i |-> 1], [k |-> "c", i |-> 2]>>, n |-> 0],
                    [op |-> "Add", a |-> <<[k |-> "s", i |-> 0], [k |-> "c", i |-> 1]>>, n |-> 0] >>
-Refs(n) == IF Derived THEN TempRefs(n) \cup {[k |-> "p", i |-> 0], [k |-> "c", i |-> 1]}
+BoolPrefix == << [op |-> "AssertIsBoolean", a |-> <<[k |-> "p", i |-> 0]>>, n |-> 0],
+                [op |-> "Neg", a |-> <<[k |-> "p", i |-> 0]>>, n |-> 0],
+                [op |-> "Mul", a |-> <<[k |-> "p", i |-> 0], [k |-> "c", i |-> 2]>>, n |-> 0],
+                [op |-> "Add", a |-> <<[k |-> "p", i |-> 0], [k |-> "p", i |-> 0]>>, n |-> 0] >>
+Refs(n) == IF Derived > 0 THEN TempRefs(n) \cup {[k |-> "p", i |-> 0], [k |-> "c", i |-> 1]}
            ELSE InputRefs \cup ConstRefs \cup TempRefs(n)
 
 NOut(op, n) == IF op = "ToBinary" THEN n
@@ -43,13 +48,14 @@ L2Patterns == { <<[k |-> "p", i |-> 0], [k |-> "p", i |-> 1], [k |-> "s", i |-> 
 \* same as with one big step, but every state has few successors, which is what makes random simulation cheap.
 NoCur == [op |-> "", a |-> <<>>, n |-> 0]
 
-Init == /\ prog = (IF Derived THEN DerivedPrefix ELSE <<>>) /\ nt = (IF Derived THEN 3 ELSE 0)
+Init == /\ prog = (IF Derived = 1 THEN DerivedPrefix ELSE IF Derived = 2 THEN BoolPrefix ELSE <<>>)
+        /\ nt = (IF Derived > 0 THEN 3 ELSE 0)
         /\ done = FALSE /\ cur = NoCur
 
 ChooseOp ==
   /\ Len(prog) < MaxLen /\ cur = NoCur
   /\ \E op \in OpSet :
-       \E w \in (IF op = "ToBinary" THEN {1, 3, FieldBits} ELSE IF op \in {"PlonkExpr", "PlonkGate"} THEN {1, 2, 3} ELSE {0}) :
+       \E w \in (IF op = "ToBinary" THEN {1, 3, FieldBits, FieldBits + 1} ELSE IF op \in {"PlonkExpr", "PlonkGate"} THEN {1, 2, 3} ELSE {0}) :
          cur' = [op |-> op, a |-> <<>>, n |-> w]
   /\ UNCHANGED <<prog, nt, done>>
 
